@@ -11,13 +11,39 @@ pub struct Chunks<'a> {
 
 impl Hash for Chunks<'_> {
     fn hash<H: Hasher>(&self, state: &mut H) {
+        // Every other chunking (odd number of cuts) hands pieces of 1, 2, 4, 8 and 16 bytes to the
+        // typed `Hasher` methods instead of `write`: on this little-endian target they must feed
+        // the very same bytes, also when a hasher overrides one of them with a fast path.
+        let typed = self.cuts.len() % 2 == 1;
         let mut prev = 0usize;
         for &c in self.cuts {
             let c = c.min(self.data.len()).max(prev);
-            state.write(&self.data[prev..c]);
+            write_piece(state, &self.data[prev..c], typed);
             prev = c;
         }
-        state.write(&self.data[prev..]);
+        write_piece(state, &self.data[prev..], typed);
+    }
+}
+
+fn write_piece<H: Hasher>(state: &mut H, p: &[u8], typed: bool) {
+    if !typed {
+        return state.write(p);
+    }
+    let signed = p.first().is_some_and(|b| b & 1 == 1);
+    match (p.len(), signed) {
+        (1, false) => state.write_u8(p[0]),
+        (1, true) => state.write_i8(p[0] as i8),
+        (2, false) => state.write_u16(u16::from_le_bytes(p.try_into().unwrap())),
+        (2, true) => state.write_i16(i16::from_le_bytes(p.try_into().unwrap())),
+        (4, false) => state.write_u32(u32::from_le_bytes(p.try_into().unwrap())),
+        (4, true) => state.write_i32(i32::from_le_bytes(p.try_into().unwrap())),
+        (8, false) if p[1] & 1 == 1 => state.write_usize(usize::from_le_bytes(p.try_into().unwrap())),
+        (8, false) => state.write_u64(u64::from_le_bytes(p.try_into().unwrap())),
+        (8, true) if p[1] & 1 == 1 => state.write_isize(isize::from_le_bytes(p.try_into().unwrap())),
+        (8, true) => state.write_i64(i64::from_le_bytes(p.try_into().unwrap())),
+        (16, false) => state.write_u128(u128::from_le_bytes(p.try_into().unwrap())),
+        (16, true) => state.write_i128(i128::from_le_bytes(p.try_into().unwrap())),
+        _ => state.write(p),
     }
 }
 
